@@ -111,7 +111,7 @@ def n_dom_ascii(hl, el, source="option"):
     elif source == "ENV":
         env["NO_PROXY"] = entry
     with _Patch(_is_ip_address=lambda a: False, os=FakeEnv(real_os, env)) as U:
-        got = U._is_no_proxy_host(host, [entry] if source == "option" else None)
+        got = sx.unit(U, "_is_no_proxy_host")(host, [entry] if source == "option" else None)
     if source != "option" and el == 0:
         exp = False
     else:
@@ -144,15 +144,15 @@ def n_cidr(p):
     mask = (0xFFFFFFFF << (32 - p)) & 0xFFFFFFFF
     sx.assume((netv & (~mask & 0xFFFFFFFF)) == 0)  # canonical network
     with _Patch(socket=InetModel({"IP": ip, "NET": net})) as U:
-        sub = U._is_subnet_address("NET/%d" % p)
+        sub = sx.unit(U, "_is_subnet_address")("NET/%d" % p)
         sx.require(sub, "every prefix length 0..32 is a CIDR block", p=p)
-        inn = U._is_address_in_network("IP", "NET/%d" % p)
+        inn = sx.unit(U, "_is_address_in_network")("IP", "NET/%d" % p)
         exp = (ipv & mask) == netv
         sx.require(sx.Iff(inn, exp), "address is in the block exactly when its first p bits equal the network's", p=p)
-        got = U._is_no_proxy_host("IP", ["NET/%d" % p])
+        got = sx.unit(U, "_is_no_proxy_host")("IP", ["NET/%d" % p])
         sx.require(sx.Iff(got, exp), "an IP target is exempt exactly when a listed CIDR block contains it", p=p)
         # the same with a second, non-matching entry and a host-name entry in the list
-        got2 = U._is_no_proxy_host("IP", ["example.org", "NET/%d" % p])
+        got2 = sx.unit(U, "_is_no_proxy_host")("IP", ["example.org", "NET/%d" % p])
         sx.require(sx.Iff(got2, exp), "other list entries do not change the CIDR decision", p=p)
     cover("cidr")
 
@@ -164,7 +164,7 @@ def n_subnet_syntax(kind):
               "neg": ("10.0.0.0/-1", False), "badip": ("300.1.1.1/8", False), "ok8": ("10.0.0.0/8", True), "ok32": ("10.1.2.3/32", True),
               "ok0": ("0.0.0.0/0", True)}[kind]
     try:
-        got = U._is_subnet_address(s)
+        got = sx.unit(U, "_is_subnet_address")(s)
     except Exception as e:
         sx.require(False, "_is_subnet_address raised %s" % type(e).__name__, s=s)
         return
